@@ -66,5 +66,26 @@ def check_valid_table(rejected):
     return diff
 
 
+def alpha_law_exceptions():
+    """hypothesis `GoodA` of C05_other_sound, as a fact about the interpreter's Unicode tables: lower-casing changes the alpha-ness of
+    no position - `c.lower().isalpha() == c.isalpha()` for every code point whose lower-casing is one character, also inside a word
+    (the only context-dependent lower-casing, final sigma, has two forms).  Returns the code points that break it."""
+    bad = []
+    for c in ALL:
+        if 0xD800 <= c <= 0xDFFF:
+            continue
+        ch = chr(c)
+        lc = ch.lower()
+        if len(lc) == 1 and lc.isalpha() != ch.isalpha():
+            bad.append(c)
+        elif c > 127 and ch.isupper():
+            for ctx, k in (('a' + ch, 1), (ch + 'a', 0), ('a' + ch + 'a', 1)):
+                l = ctx.lower()
+                if len(l) == len(ctx) and l[k].isalpha() != ch.isalpha():
+                    bad.append(c)
+                    break
+    return bad
+
+
 if __name__ == '__main__':
     print(check_tables(), accepted_separators())
